@@ -45,6 +45,11 @@ ASSUME PrintT(<<"desc", DescBare>>)
 ASSUME ChainCoherent(ChainFull) /\ ChainCoherent(ChainBare)
 
 LieArg(C, a) == a.lc = "fresh" /\ (a.h \in LieHeights \/ (a.h = 0 /\ a.lo \in LieHeights))
+\* lying primary below the trust height (backwards verification), with and without a broken interim chain
+TopLieArgs(C, k) == IF k \in ProviderKinds
+                    THEN {[a EXCEPT !.pp = pp] : a \in {x \in HonestArgs(C, k) : x.lc = "top" /\ x.page = 0 /\ x.h \in LieHeights /\ x.h < C.tip},
+                                                pp \in {"", "break"}}
+                    ELSE {}
 OtherHeights(C, a) == {h \in 1..C.tip : h # a.h /\ h # a.lo}
 CasesOf(id) ==
   LET C == ChainOf(id) IN
@@ -54,6 +59,10 @@ CasesOf(id) ==
                               f \in {g \in Lies(C, k, a, OtherHeights(C, a)) : WithCoherent \/ ~g.coh}}
                       ELSE {})
                 : a \in HonestArgs(C, k)} : k \in Kinds \cap CaseKinds}
+  \cup UNION {UNION {{[chain |-> id, kind |-> k, a |-> a, f |-> NoLie]}
+                     \cup {[chain |-> id, kind |-> k, a |-> a, f |-> f] :
+                             f \in {g \in Lies(C, k, a, OtherHeights(C, a)) : WithCoherent \/ ~g.coh}}
+                     : a \in TopLieArgs(C, k)} : k \in Kinds \cap CaseKinds}
 \* searches answered by the full node's rpc/core TxSearch with prove = true (kind "TxSearch": no lie,
 \* the subject is the honest server itself)
 SearchCasesOf(id) == IF "TxSearch" \in CaseKinds
